@@ -983,8 +983,27 @@ fn blocked_case(rep: &mut Report, prop: &str, args: &Args, cs: u64) {
         _ => Some(rng.range(1, 12) as usize),
     };
     let producers = *rng.pick(&[2usize, 2, 3, 4, 8, 16]);
-    let per = rng.range(1, 6) as usize + cap.unwrap_or(4) / producers + 1;
-    let big = rng.chance(1, 3) && cap.map(|c| c < 64).unwrap_or(true); // large metrics widen the window between a room check and the send
+    // "an unbounded queue accepts every metric": backlogs beyond 2^16 (a third of the unbounded cases) and, once per
+    // run with --huge-first, beyond 2^20 pile up behind the blocked sink - hidden ceilings sit at such round numbers
+    static HUGE_DONE: std::sync::atomic::AtomicBool = std::sync::atomic::AtomicBool::new(false);
+    let cap = if args.flag("huge-first") && !HUGE_DONE.load(Ordering::SeqCst) { None } else { cap };
+    let backlog_total = if cap.is_none() {
+        if args.flag("huge-first") && !HUGE_DONE.swap(true, Ordering::SeqCst) {
+            (1usize << 20) + 60_000
+        } else if rng.chance(1, 3) {
+            70_000
+        } else {
+            0
+        }
+    } else {
+        0
+    };
+    if backlog_total > 0 {
+        rep.obs("unbounded_backlogs_beyond_65536_behind_a_blocked_sink", 1);
+        rep.obs_max("largest_backlog_accepted_by_an_unbounded_queue", 0);
+    }
+    let per = if backlog_total > 0 { backlog_total / producers + 1 } else { rng.range(1, 6) as usize + cap.unwrap_or(4) / producers + 1 };
+    let big = rng.chance(1, 3) && cap.map(|c| c < 64).unwrap_or(true) && backlog_total == 0; // large metrics widen the window between a room check and the send
     rep.eval();
     let sh = Shared::new(true);
     set_current(None);
@@ -1112,6 +1131,9 @@ fn blocked_case(rep: &mut Report, prop: &str, args: &Args, cs: u64) {
             report(rep, &["C10"], if cap.is_none() { "unbounded-refused" } else { "refused-with-room" }, format!("with the worker parked holding one metric, only {} of the first {} emits were accepted by a queue of capacity {:?}", ok_n, want, cap), &sh.log());
         } else {
             rep.obs("exact_capacity_under_race_checks", 1);
+            if cap.is_none() {
+                rep.obs_max("largest_backlog_accepted_by_an_unbounded_queue", ok_n);
+            }
         }
     }
     let sf = surfaced.lock().unwrap().clone();
